@@ -17,6 +17,14 @@ by invariants of `step` (Lemmas/Lifecycle.lean), not by sampling.  The `except`/
 `Gen.saveInterval` is the generated `SAVE_INTERVAL`: removing the `suppress(CancelledError)` or the
 `except CancelledError: break`, or raising the interval above 900, makes these theorems fail to check.
 
+The ORDER and NESTING of the steps (`if self.persistence`, `try … except BaseException: stop; raise`, `try … finally: stop`,
+`stop` = cancel, await under `suppress`, clear, save; the saver's `while True: save; try: sleep except …: break`) is not
+assumed either: `tools/translate_lifecycle.py` compiles `__aenter__`, `__aexit__`, `start` (with `save_on_schedule`,
+`cancel_save`) and `stop` into control skeletons (`Generated/LifecycleBodies.lean`), and `Lemmas/LifecycleBodiesEq.lean`
+proves that the machine interpreting those skeletons passes through exactly the states of `Lifecycle.step` for every fault
+record, exception class and schedule (`LL.generated_runs_model`; `LL.exit_clean_generated` is `exit_clean` restated about
+the generated text).  That module is an obligation of this property (`tools/ties.json`).
+
 The transport kind does not occur in the model: `Gateway` only calls `connect`/`disconnect`, whose
 only relevant behaviours are "returns" / "raises" at a suspension point (the fault flags).
 
